@@ -2184,6 +2184,41 @@ func (ff *FuncFacts) assign(x *ast.AssignStmt, st *State) *State {
 		}
 		st = ff.killTerm(st, lt)
 	}
+	if len(x.Rhs) == len(x.Lhs) && (x.Tok == token.ASSIGN || x.Tok == token.DEFINE) {
+		for i := range x.Lhs {
+			lt := lts[i]
+			if lt == nil {
+				continue
+			}
+			// x := T{f: e, ...}: the fields of the new value are what the literal says
+			if cl, isCL := unparen(x.Rhs[i]).(*ast.CompositeLit); isCL && lt.K == 'v' {
+				if stt, isStruct := info.TypeOf(cl).Underlying().(*types.Struct); isStruct {
+					for _, el := range cl.Elts {
+						kv, isKV := el.(*ast.KeyValueExpr)
+						if !isKV {
+							continue
+						}
+						kid, isId := kv.Key.(*ast.Ident)
+						if !isId {
+							continue
+						}
+						var fld *types.Var
+						for k := 0; k < stt.NumFields(); k++ {
+							if stt.Field(k).Name() == kid.Name {
+								fld = stt.Field(k)
+							}
+						}
+						if fld == nil {
+							continue
+						}
+						if vt := ff.term(kv.Value); vt != nil && ff.pureTerm(vt) && !vt.mentions(lt.String()) {
+							st = st.add(mkFact(true, "eq", TField(lt, fld), vt))
+						}
+					}
+				}
+			}
+		}
+	}
 	for i := range x.Lhs {
 		lt := lts[i]
 		if lt == nil || i >= len(rts) || rts[i] == nil || same[i] {
